@@ -91,6 +91,9 @@ class NumpyModel:
     # ------------------------------------------------------------------ attributes
     def ext_attr(self, base, attr, node):
         path = base.path + "." + attr
+        if path == "dataclasses.MISSING":
+            from .interp import _MISSING
+            return _MISSING
         if path in ("numpy.pi", "math.pi"):
             return alg.PI
         if path in ("numpy.e", "math.e"):
@@ -479,10 +482,7 @@ class NumpyModel:
         if root == "dataclasses" and last == "fields":
             obj = args[0]
             cv = obj.cls if isinstance(obj, Record) else obj
-            from .interp import Env as _Env
-            return tuple(Record(None, {"name": f[0], "type": I.ev(f[1], _Env(f[3].module)),
-                                       "default": I.ev(f[2], _Env(f[3].module)) if f[2] is not None else UNINIT}, label="Field")
-                         for f in I.dataclass_fields(cv))
+            return tuple(I.field_record(f) for f in I.dataclass_fields(cv))
         if root == "dataclasses" and last == "asdict":
             rec = args[0]
             out = {}
